@@ -329,37 +329,67 @@ def r8(ctx, P, rule='C10.8'):
                     why += ' is not strictly increasing and overflow-free (a self-product is stationary at 0/1, squares 2^20 to 2^40 and wraps to 0)'
                 ctx.ob(rule, ok, g.name, 'growth step', ev.where(), why)
     ctx.floor('growth loop updates in jls_buf_realloc', n, 1)
-    # G2: what the payload reader compares when it answers TOO_BIG
+    # G2: what the payload reader compares when it answers TOO_BIG, as a function of the payload length
+    # (set-of-constants evaluation of the compared quantity at the TOO_BIG return)
+    from ..fd import values_at
+    from ..ir import path_of
     rp = P.fn('jls_raw_rd_payload')
     too_big = P.enum_consts.get('JLS_ERROR_TOO_BIG')
-    need_fn = None
+    guard = None
     for r in rp.returns():
         if r.e is not None and const_of(strip_casts(r.e)) == too_big:
             for (bid, label) in control_deps_transitive(rp, r.block.id):
                 c = rp.blocks[bid].cond
                 e = strip_casts(c) if c else None
                 if e is not None and e.get('op') == 'bin' and e['o'] in ('>', '>=', '<', '<='):
-                    for side in e['k']:
-                        v = var_of(rp, side)
-                        if v is None:
-                            continue
-                        defs, _ = df.reaching_defs(rp, v, rp.blocks[bid], len(rp.blocks[bid].events))
-                        for d in defs:
-                            rhs = d.store_parts()[1]
-                            if rhs is not None and strip_casts(rhs).get('op') == 'call':
-                                need_fn = strip_casts(rhs)['callee']
-    if need_fn is None:
+                    sides = e['k']
+                    par = [x for x in sides if var_of(rp, x) in [p_['name'] for p_ in rp.params]]
+                    oth = [x for x in sides if x not in par]
+                    if par and oth:
+                        guard = (r, oth[0], var_of(rp, par[0]))
+    if guard is None:
         raise AnalysisBroken('TOO_BIG guard of jls_raw_rd_payload not found')
-    nf = P.fn(need_fn)
-    # overhead = max over residues of need(L) - L   (set-of-constants evaluation of the helper)
-    over = set()
-    for L in range(1, 65):
-        try:
-            over.add(fd.call(nf, [L]) - L)
-        except Top:
-            raise AnalysisBroken('cannot evaluate %s on constants' % need_fn)
+    ret_ev, qty, cap = guard
+    lpaths = set()
+    for ev_ in rp.events():
+        for nd in walk(ev_.e):
+            if nd.get('op') == 'member' and nd.get('field') == 'payload_length':
+                lpaths.add(str(path_of(nd)))
+                if rp.path(nd) is not None:
+                    lpaths.add(str(rp.path(nd)))
+    for bl in rp.blocks.values():
+        for nd in walk(bl.cond):
+            if nd.get('op') == 'member' and nd.get('field') == 'payload_length':
+                lpaths.add(str(path_of(nd)))
+
+    def need(L):
+        env = {k_: L for k_ in lpaths}
+        env['self'] = 1
+        vals = values_at(P, rp, ret_ev, qty, env)
+        vals.discard(None)
+        if len(vals) != 1:
+            raise AnalysisBroken('quantity compared by jls_raw_rd_payload not evaluable for payload length %d (%s)' % (L, vals))
+        return vals.pop()
+    over = set(need(L) - L for L in range(1, 65))
     overhead = max(over)
-    ctx.note(rule + ': %s(L) - L over residues = %s (max %d)' % (need_fn, sorted(over), overhead))
+    need_fn = 'the quantity jls_raw_rd_payload compares with %s' % cap
+    ctx.note(rule + ': (compared quantity - payload length) over residues = %s' % sorted(over))
+    # the bytes actually read into the caller's buffer are that same quantity (bounded read)
+    for fr in rp.calls('jls_bk_fread'):
+        dst = strip_casts(fr.args[1])
+        if var_of(rp, dst) in [p_['name'] for p_ in rp.params]:
+            bad_r = []
+            for L in range(1, 65):
+                env = {k_: L for k_ in lpaths}
+                env['self'] = 1
+                env[cap] = 1 << 30
+                got = values_at(P, rp, fr, fr.args[2], env)
+                got.discard(None)
+                if len(got) != 1 or got != {need(L)}:
+                    bad_r.append('L=%d: reads %s bytes, compared %d' % (L, sorted(got), need(L)))
+            ctx.ob(rule, not bad_r, rp.name, 'bytes read into the caller buffer == quantity compared with its capacity', fr.where(),
+                   'equal for every residue' if not bad_r else
+                   'the capacity check and the read disagree (%s): the read overruns a buffer sized as documented' % bad_r[0])
     # every site that grows a buffer and then reads a payload into it
     n2 = 0
     for fn in P.all_functions():
@@ -375,6 +405,43 @@ def r8(ctx, P, rule='C10.8'):
                     continue
                 n2 += 1
                 ctx.saw(fn, 1)
+                # the grow must happen on every path to the read, unless it is skipped only when the buffer already covers the need
+                if not ev_dominates(gr, rd) and find_path(fn, 'entry', lambda e2, facts: 'stop' if e2 is gr else ('target' if e2 is rd else None), refine=False) is not None:
+                    okg = False
+                    why = 'the grow is conditional'
+                    from ..graph import control_deps
+                    # retry idiom: read first, grow when the reader itself answered TOO_BIG, then read again
+                    for (bid, label) in control_deps_transitive(fn, gr.block.id):
+                        for (var_, kind_, cv_) in cond_facts(fn, fn.blocks[bid].cond, label):
+                            if kind_ == 'eq' and cv_ == too_big and find_path(fn, gr, lambda e2, facts: 'target' if e2 is rd else None, refine=False) is not None:
+                                okg = True
+                    if okg:
+                        ctx.ob(rule, True, fn.name, 'buffer covers the on-disk payload on every path to the read', gr.where(), 'retry idiom: grow on TOO_BIG, then read again')
+                        req = strip_casts(gr.args[1])
+                    for (bid, label) in (control_deps(fn).get(gr.block.id, ()) if not okg else ()):
+                        c_ = strip_casts(fn.blocks[bid].cond) if fn.blocks[bid].cond else None
+                        if c_ is None or c_.get('op') != 'bin' or c_['o'] not in ('>', '>=') or label != 'T':
+                            continue
+                        rp_ = fn.path(strip_casts(c_['k'][1]))
+                        if rp_ is None or rp_.last_field() != 'alloc_size':
+                            continue
+                        lens_ = [nd for nd in walk(c_['k'][0]) if nd.get('op') == 'member' and nd.get('field') == 'payload_length']
+                        if not lens_:
+                            continue
+                        lp_ = str(path_of(lens_[0]))
+                        okg = True
+                        for L in range(1, 65):
+                            try:
+                                v_ = fd.ev(fn, c_['k'][0], {lp_: L, str(fn.path(lens_[0])): L})
+                            except Top:
+                                okg = False
+                                break
+                            if v_ < need(L):
+                                okg = False
+                                why = 'the grow is skipped when `%s` <= alloc_size, but the reader needs %d bytes for a %d-byte payload' % (show(c_['k'][0]), need(L), L)
+                                break
+                    ctx.ob(rule, okg, fn.name, 'buffer covers the on-disk payload on every path to the read', gr.where(),
+                           'grow skipped only when the buffer is already large enough' if okg else why + ': payloads within %d bytes of the buffer size get TOO_BIG and are dropped' % overhead)
                 req = strip_casts(gr.args[1])
                 # requested = f(payload_length): evaluate with payload_length bound to L
                 lens = [nd for nd in walk(req) if nd.get('op') == 'member' and nd.get('field') == 'payload_length']
@@ -389,11 +456,11 @@ def r8(ctx, P, rule='C10.8'):
                     except Top:
                         bad = ['request %s not evaluable' % show(req)]
                         break
-                    need = fd.call(nf, [L])
-                    if got < need:
-                        bad.append('L=%d: requests %d, reader needs %d' % (L, got, need))
+                    nd_ = need(L)
+                    if got < nd_:
+                        bad.append('L=%d: requests %d, reader needs %d' % (L, got, nd_))
                 ctx.ob(rule, not bad, fn.name, 'grow request before reading a payload', gr.where(),
-                       'request %s >= %s(L) for every residue' % (show(req), need_fn) if not bad else
+                       'request %s >= %s for every residue' % (show(req), need_fn) if not bad else
                        'request `%s` is smaller than what %s compares (%s): TOO_BIG is answered again (retry loop spins / chunk is dropped) for payloads within %d bytes of the buffer size; %s' %
                        (show(req), 'jls_raw_rd_payload', need_fn, overhead, bad[0]))
     ctx.floor('grow-then-read sites', n2, 2)
